@@ -24,11 +24,14 @@ ASSUME \A t \in 1..NT : TLCSet(t, 0)
 TInit == /\ tid \in 1..NT /\ l = 1
          /\ live = <<>>
          /\ files = [s \in Slots |-> NoFile] /\ snap = [s \in Slots |-> NoState]
-         /\ loaded = [h \in Handles |-> NoState] /\ src = [h \in Handles |-> 0]
+         /\ loaded = [h \in Handles |-> NoState] /\ src = [h \in Handles |-> <<0, 0>>]
+         /\ flags = [p \in Procs |-> IF p = 1 THEN ParamGroups ELSE {}]
          /\ act = [n |-> "Init"]
 Ev == Traces[tid].ev[l]
 A  == Ev.a
 Id == Traces[tid].id
+\* the process a call ran in: 1 = the checker's process, which built the reactor; 2 = a fresh process that only loads and saves
+Proc == IF "p" \in DOMAIN A THEN A.p ELSE 1
 
 Say(call, clause, S) == PrintT(ToJson([verdict |-> Id, at |-> l, call |-> call, clause |-> clause,
                                        n |-> Cardinality(S), first |-> IF S = {} THEN 0 ELSE Min(S)]))
@@ -54,7 +57,7 @@ IllFormed(what) == PrintT(ToJson([mismatch |-> Id, at |-> l, reason |-> "ill-for
 EvState == /\ A.n = "State"
            /\ \/ Usable(Ev.post.live) /\ live' = Ev.post.live
               \/ ~Usable(Ev.post.live) /\ IllFormed("live state")
-           /\ act' = [n |-> "State"] /\ UNCHANGED <<files, snap, loaded, src>>
+           /\ act' = [n |-> "State"] /\ UNCHANGED <<files, snap, loaded, src, flags>>
 EvWrite == /\ A.n = "Write" /\ files[A.s] = NoFile
            /\ \/ /\ Sortable(live) = TRUE
                  /\ LET f == Flatten(live) IN
@@ -62,31 +65,32 @@ EvWrite == /\ A.n = "Write" /\ files[A.s] = NoFile
                     /\ files' = [files EXCEPT ![A.s] = f] /\ snap' = [snap EXCEPT ![A.s] = live]
               \/ /\ ~Sortable(live)           \* the model refuses, the code stored something: no snapshot to go on with
                  /\ Say("Write", "RefusalExpected", {1}) /\ UNCHANGED <<files, snap>>
-           /\ act' = [n |-> "Write", s |-> A.s] /\ UNCHANGED <<live, loaded, src>>
+           /\ act' = [n |-> "Write", s |-> A.s] /\ UNCHANGED <<live, loaded, src, flags>>
 EvWriteRefused == /\ A.n = "WriteRefused"
                   /\ (Sortable(live) = FALSE \/ Say("WriteRefused", "UnexpectedRefusal:" \o Ev.post.exception, {1})) = TRUE
-                  /\ act' = [n |-> "WriteRefused", s |-> A.s] /\ UNCHANGED <<live, files, snap, loaded, src>>
+                  /\ act' = [n |-> "WriteRefused", s |-> A.s] /\ UNCHANGED <<live, files, snap, loaded, src, flags>>
 EvLoad == /\ A.n = "Load" /\ files[A.s] # NoFile
           /\ \/ Usable(Ev.post.state) \/ (~Usable(Ev.post.state) /\ IllFormed("loaded state"))
           /\ Judge("Load", LoadFile(files[A.s]), Ev.post.state)
           \* "loading the same snapshot twice gives equal reactors"
-          /\ (\A h \in Handles : (src[h] # A.s \/ h = A.h) \/ ObsEqual(loaded[h], Ev.post.state)
+          /\ (\A h \in Handles : (src[h][1] # A.s \/ h = A.h) \/ ObsEqual(loaded[h], Ev.post.state)
                                  \/ Say("Load", "LoadTwice", {h})) = TRUE
-          /\ loaded' = [loaded EXCEPT ![A.h] = Ev.post.state] /\ src' = [src EXCEPT ![A.h] = A.s]
+          /\ loaded' = [loaded EXCEPT ![A.h] = Ev.post.state] /\ src' = [src EXCEPT ![A.h] = <<A.s, Proc>>]
+          /\ flags' = [flags EXCEPT ![Proc] = @ \cup ParamGroups]
           /\ act' = [n |-> "Load", s |-> A.s, h |-> A.h] /\ UNCHANGED <<live, files, snap>>
 EvResave == /\ A.n = "Resave" /\ loaded[A.h] # NoState /\ files[A.s] = NoFile
             /\ \/ /\ Sortable(loaded[A.h]) = TRUE
-                  /\ LET f == Flatten(loaded[A.h]) IN
+                  /\ LET f == Mask(Flatten(loaded[A.h]), flags[src[A.h][2]]) IN
                      /\ JudgeFile("Resave", FileObs(f), Ev.post.file)
                      /\ files' = [files EXCEPT ![A.s] = f] /\ snap' = [snap EXCEPT ![A.s] = loaded[A.h]]
                \/ /\ ~Sortable(loaded[A.h]) /\ Say("Resave", "RefusalExpected", {1}) /\ UNCHANGED <<files, snap>>
-            /\ act' = [n |-> "Resave", h |-> A.h, s |-> A.s] /\ UNCHANGED <<live, loaded, src>>
+            /\ act' = [n |-> "Resave", h |-> A.h, s |-> A.s] /\ UNCHANGED <<live, loaded, src, flags>>
 
 \* a legal call that raises anything but a refusal the model knows: a verdict; nothing changes (the driver ends the history)
 Raised == "exception" \in DOMAIN Ev.post /\ A.n # "WriteRefused"
 EvRaised == /\ Raised
             /\ Say(A.n, "Raised:" \o Ev.post.exception, {1})
-            /\ act' = [n |-> "Raised"] /\ UNCHANGED <<live, files, snap, loaded, src>>
+            /\ act' = [n |-> "Raised"] /\ UNCHANGED <<live, files, snap, loaded, src, flags>>
 
 TNext == /\ l <= Len(Traces[tid].ev) /\ l' = l + 1 /\ tid' = tid
          /\ IF Raised THEN EvRaised ELSE (EvState \/ EvWrite \/ EvWriteRefused \/ EvLoad \/ EvResave)
